@@ -18,15 +18,22 @@ def linalg_cases(res, cfgs, only_kinds=None, prop=None):
 def run(res, only=None):
     cfgs = [c for c in CFGS if not only or c in only]
     linalg_cases(res, cfgs)
+    # code -> spec on arbitrary real matrices: products, matrix*vector and determinants recorded per build and judged by TLC against
+    # |got - exact| <= K(op) * u * sum|monomials| with arbitrary-precision integers (Trace_Poly.tla defines the polynomials)
+    core.record_and_validate(res, "poly", [c for c in cfgs if c != "sse2-rel"], draws=3 if res.tier == "quick" else 60, module="Trace_Poly",
+                             chunks=2 if res.tier == "quick" else 8, expect_kinds=("poly",))
     res.exhaustive = res.tier == "thorough"
     res.rule = ("integer matrices: 4x4 over {0,1} (all 65536 in thorough, 1/16 stride in quick: decides the multilinear determinant), "
                 "3x3 over -1..1 (all 19683 thorough), 2x2 over -8..8 (all 83521 thorough), seeded dense -3..3 of every size, signed "
                 "permutations, unimodular LU products (exact inverse), +-2^k determinants (exact dyadic inverse), rank-deficient "
                 "(determinant exactly 0); per matrix: det, transpose, A*B, A*v, (A*B)*v = A*(B*v), +, -, neg, scalar *, /, inverse "
-                "(exact where adj/det is representable, inverse*det = adj within 2e-5 / 1e-12 otherwise). non-trivial = more than one non-zero entry.")
+                "(exact where adj/det is representable, inverse*det = adj within 2e-5 / 1e-12 otherwise). non-trivial = more than one non-zero entry.  "
+                "Code -> spec: A*B, A*v, determinant, transform_point/vector of every matrix and affine type on random real entries (random "
+                "significands, exponents within 2^+-12) recorded per build; TLC evaluates the defining polynomial exactly (Leibniz determinant, "
+                "row-by-column products) and accepts iff |got - exact| <= K * u * sum|monomials| (K = 5..14 by operation, u = 2^-24 / 2^-53).")
     res.assumptions = ["on small-integer entries every intermediate of every backend is exactly representable, so comparison is exact",
-                       "conditioning bound eps*kappa for general real matrices is not decided (DESIGN section 6)"]
+                       "the inverse's conditioning bound eps*kappa for general real matrices is not decided (DESIGN section 6)"]
 
 
 def replay(res, path, only=None):
-    return core.generic_replay(res, path, "lin")
+    return core.replay_dispatch(res, path, "lin")
